@@ -5,6 +5,8 @@ package hx
 
 import (
 	"bufio"
+	"crypto/sha1"
+	"encoding/hex"
 	"encoding/json"
 	"fmt"
 	"os"
@@ -169,6 +171,17 @@ func K(b []byte) []int {
 		out[i] = int(c)
 	}
 	return out
+}
+
+// V records a KV value: short values verbatim, long ones (the `bigval`
+// family writes values of several kilobytes) as length + digest, which keeps
+// equality and keeps the traces small.
+func V(b []byte) string {
+	if len(b) <= 96 {
+		return string(b)
+	}
+	h := sha1.Sum(b)
+	return fmt.Sprintf("<%d bytes sha1 %s>", len(b), hex.EncodeToString(h[:8]))
 }
 
 // Ks encodes a string the same way.
